@@ -321,6 +321,33 @@ func (r realFirstRes[T, O]) Count(ctx context.Context, q common.ResourceQuery[O]
 // the storage layer raises BEFORE it sends anything. So every statement sent under a read of ledger L is audited
 // here, whether or not the interpreter can then execute it.
 
+type stmtLedgerKeyT struct{}
+
+var stmtLedgerKey stmtLedgerKeyT
+
+// stmtLedgerOf: the ledger a statement is executed for (write path: SimStore.lctx; reads: withReadLedger).
+func stmtLedgerOf(ctx context.Context) string {
+	if n, ok := ctx.Value(stmtLedgerKey).(string); ok {
+		return n
+	}
+	if l, _ := ctx.Value(readLedgerKey).(*ledger.Ledger); l != nil {
+		return l.Name
+	}
+	return ""
+}
+
+// ForeignRow: a statement executed on behalf of one ledger matched (returned, locked, updated or deleted) a row
+// of another ledger of the bucket.
+type ForeignRow struct {
+	Task      string
+	Ledger    string
+	RowLedger string
+	Table     string
+	Key       string
+	Event     uint64
+	SQL       string
+}
+
 type readLedgerKeyT struct{}
 
 var readLedgerKey readLedgerKeyT
